@@ -148,6 +148,8 @@ def oracle(w):
     """The property on the real code for one witness.  -> (fails, detail).  The witness is a valid circuit: any
     exception of the implementation (other than the refusal of an out-of-range condition value) is a failure."""
     try:
+        if w.get("kind") == "transformed":
+            return _oracle_transformed(w)
         return _oracle(w)
     except Exception as e:
         return True, "the implementation raised " + type(e).__name__ + ": " + str(e)[:120]
@@ -238,6 +240,316 @@ def _oracle(w):
 
 
 # ------------------------------------------------------------------------------------------
+# conditions ASSIGNED on the gate object, and circuits that come out of the library's own transformations
+
+def build_assigned(w):
+    """the witness circuit with every gate constructed WITHOUT its classical condition (and, per `late`, with
+    placeholder targets / controls / argument); the real values are assigned on the Gate object after add_gate, as
+    `circuit/_decompose.py` and user code do.  The simulator reads the gate's attributes when it executes the gate."""
+    from qutip_qip.circuit import QubitCircuit
+    late = set(w.get("late") or ["cc"])
+    qc = QubitCircuit(w["n"], num_cbits=w["ncb"])
+    for o in w["ops"]:
+        if "M" in o:
+            qc.add_measurement("M", targets=[o["M"]], classical_store=o.get("store"))
+            continue
+        kw = {}
+        if o.get("cc") is not None and "cc" not in late:
+            kw = {"classical_controls": list(o["cc"]), "classical_control_value": o["ccv"]}
+        elif o.get("cc") is not None and "ccv" in late and "cc" not in late:
+            pass
+        k = len(o["targets"]) + len(o.get("controls") or [])
+        place = list(range(k))                                  # placeholder qubits 0..k-1
+        nt = len(o["targets"])
+        qc.add_gate(o["name"],
+                    targets=(place[:nt] if "targets" in late else list(o["targets"])),
+                    controls=((place[nt:] if "targets" in late else list(o["controls"])) if o.get("controls") else None),
+                    arg_value=((0.123 if o.get("arg") is not None else None) if "arg" in late else o.get("arg")), **kw)
+        g = qc.gates[-1]
+        if "targets" in late:
+            g.targets = list(o["targets"])
+            if o.get("controls"):
+                g.controls = list(o["controls"])
+        if "arg" in late and o.get("arg") is not None:
+            g.arg_value = o["arg"]
+        if o.get("cc") is not None and "cc" in late:
+            g.classical_controls = list(o["cc"])
+            g.classical_control_value = o["ccv"]
+    if w.get("reassign"):
+        # a second assignment: first a WRONG condition, then the right one again
+        for g, o in zip(qc.gates, w["ops"]):
+            if "M" not in o and o.get("cc") is not None:
+                g.classical_control_value = (o["ccv"] + 1) % (2 ** len(o["cc"]))
+                g.classical_control_value = o["ccv"]
+    return qc
+
+
+TRANSFORMS = ["resolve_default", "resolve_cnot_rot", "resolve_csign", "resolve_iswap", "resolve_sqrtswap", "adjacent",
+              "chain_linear", "chain_circular", "reverse", "add_circuit", "qasm_if"]
+
+
+def apply_transform(name, qc, w):
+    """-> (transformed circuit, op list of the ORIGINAL semantics the result must have)"""
+    from qutip_qip.circuit import QubitCircuit
+    ops = w["ops"]
+    if name.startswith("resolve"):
+        basis = {"resolve_default": None, "resolve_cnot_rot": ["CNOT", "RX", "RY", "RZ"],
+                 "resolve_csign": ["CSIGN", "RX", "RY", "RZ"], "resolve_iswap": ["ISWAP", "RX", "RY", "RZ"],
+                 "resolve_sqrtswap": ["SQRTSWAP", "RX", "RY", "RZ"]}[name]
+        return (qc.resolve_gates() if basis is None else qc.resolve_gates(basis)), ops, w["n"]
+    if name == "adjacent":
+        return qc.adjacent_gates(), ops, w["n"]
+    if name.startswith("chain"):
+        from qutip_qip.transpiler.chain import to_chain_structure
+        return to_chain_structure(qc, name.split("_")[1]), ops, w["n"]
+    if name == "reverse":
+        return qc.reverse_circuit(), list(reversed(ops)), w["n"]
+    if name == "add_circuit":
+        s0 = w.get("start", 1)
+        big = QubitCircuit(w["n"] + s0 + w.get("pad", 0), num_cbits=w["ncb"])
+        big.add_circuit(qc, start=s0)
+        shifted = []
+        for o in ops:
+            if "M" in o:
+                shifted.append(dict(o, M=o["M"] + s0))
+            else:
+                shifted.append(dict(o, targets=[t + s0 for t in o["targets"]],
+                                    controls=([c + s0 for c in o["controls"]] if o.get("controls") else None)))
+        return big, shifted, w["n"] + s0 + w.get("pad", 0)
+    raise KeyError(name)
+
+
+def read_ops(qc):
+    """the operations of a circuit as its PUBLIC attributes show them"""
+    from qutip_qip.operations import Measurement
+    out = []
+    for g in qc.gates:
+        if isinstance(g, Measurement):
+            out.append({"M": g.targets[0], "store": g.classical_store})
+        else:
+            out.append({"gate": g, "cc": (None if g.classical_controls is None else list(g.classical_controls)),
+                        "ccv": g.classical_control_value})
+    return out
+
+
+def _apply_compact(psi, n, g):
+    """the gate's own compact matrix applied to its qubits (controls first, then targets), by numpy"""
+    if g.targets is None:            # GLOBALPHASE
+        return psi * np.exp(1j * g.arg_value)
+    U = np.asarray(g.get_compact_qobj().full())
+    qs = list(g.controls or []) + list(g.targets)
+    k = len(qs)
+    T = psi.reshape([2] * n)
+    T = np.tensordot(U.reshape([2] * (2 * k)), T, axes=(list(range(k, 2 * k)), qs))
+    T = np.moveaxis(T, list(range(k)), qs)
+    return T.reshape(-1)
+
+
+def branches_attr(ops, n, ncb, psi0, cbits0):
+    """branch semantics of an attribute-level op list (`read_ops`)"""
+    m = sum(1 for o in ops if "M" in o)
+    idx = np.arange(2 ** n)
+    out = []
+    for rec in itertools.product([0, 1], repeat=m):
+        psi = psi0.copy()
+        bits = list(cbits0) if cbits0 is not None else [0] * ncb
+        j, alive = 0, True
+        for o in ops:
+            if "M" in o:
+                keep = ((idx >> (n - 1 - o["M"])) & 1) == rec[j]
+                psi = np.where(keep, psi, 0)
+                if o.get("store") is not None:
+                    bits[o["store"]] = rec[j]
+                j += 1
+                if np.vdot(psi, psi).real <= 1e-18:
+                    alive = False
+                    break
+            else:
+                if o["cc"] is not None:
+                    val = 0
+                    for c in o["cc"]:
+                        val = 2 * val + bits[c]
+                    if val != o["ccv"]:
+                        continue
+                psi = _apply_compact(psi, n, o["gate"])
+        out.append((list(rec), float(np.vdot(psi, psi).real) if alive else 0.0, psi if alive else None, bits))
+    return out
+
+
+def _oracle_transformed(w):
+    """A conditioned circuit sent through one of the library's transformations (and/or with its conditions assigned on
+    the gate objects), then simulated under EVERY initial classical state and every record: the branches are those of the
+    ORIGINAL circuit (states up to a global phase per branch), and those of the operations the transformed circuit
+    SHOWS in its public attributes (exactly)."""
+    import qutip
+    n0, ncb = w["n"], w["ncb"]
+    name = w["transform"]
+    try:
+        qc = build_assigned(w) if w.get("late") else build_from_witness(w)
+    except Exception as e:
+        return False, "not constructible: " + type(e).__name__
+    if name == "assigned":
+        t, sem, n = qc, w["ops"], n0
+    elif name == "qasm_if":
+        from qutip_qip.qasm import read_qasm
+        import warnings
+        with warnings.catch_warnings():
+            warnings.simplefilter("ignore")
+            t = read_qasm(w["qasm"], strmode=True)
+        sem, n = None, t.N
+        ncb = t.num_cbits
+    else:
+        try:
+            t, sem, n = apply_transform(name, qc, w)
+        except Exception as e:
+            return False, f"{name} not applicable: {type(e).__name__}: {str(e)[:60]}"
+    for mo in reversed(w.get("pre") or []):
+        # measurements put in front AFTER the transformation (resolve_gates & co. refuse circuits with measurements)
+        t.add_measurement("M", targets=[mo["M"]], classical_store=mo.get("store"), index=[0])
+    if sem is not None:
+        sem = [dict(mo) for mo in (w.get("pre") or [])] + list(sem)
+    D = 2 ** n
+    init = w.get("init")
+    if init is None or len(init) != D:
+        rs = np.random.RandomState(w.get("seed", 1))
+        psi0 = rs.normal(size=D) + 1j * rs.normal(size=D)
+    else:
+        psi0 = np.array([complex(a, b) for a, b in init], dtype=complex)
+    psi0 = psi0 / np.linalg.norm(psi0)
+    ket = qutip.Qobj(psi0.reshape(-1, 1), dims=[[2] * n, [1] * n])
+    shown = read_ops(t)
+    tol = 1e-7
+    settings = [list(b) for b in itertools.product([0, 1], repeat=ncb)] if ncb else [None]
+    for bits in settings:
+        try:
+            res = t.run_statistics(ket, cbits=(None if bits is None else list(bits)))
+        except Exception as e:
+            return True, f"{name}: run_statistics of the transformed circuit (cbits={bits}) raised {type(e).__name__}: {str(e)[:80]}"
+        probs = [float(p) for p in res.get_probabilities()]
+        states = res.get_final_states()
+        refs = [("the operations the transformed circuit shows in its attributes",
+                 [b for b in branches_attr(shown, n, ncb, psi0, bits) if b[1] > 1e-12], True)]
+        if sem is not None:
+            refs.append(("the ORIGINAL circuit", [b for b in branches(dict(w, n=n, ops=sem, init=[[z.real, z.imag] for z in psi0]), bits)
+                                                  if b[1] > 1e-12], False))
+        for what, live, exact in refs:
+            if len(probs) != len(live):
+                return True, f"{name}, cbits={bits}: {len(probs)} branches, {what} has {len(live)}"
+            for a, b in enumerate(live):
+                if abs(probs[a] - b[1]) > tol:
+                    return True, (f"{name}, cbits={bits}, record {b[0]}: probability {probs[a]!r}, {what} gives {b[1]!r}")
+                v = states[a].full().ravel()
+                r = b[2] / np.linalg.norm(b[2])
+                ok = np.allclose(v, r, atol=tol) if exact else abs(abs(np.vdot(r, v)) - 1) < tol
+                if not ok:
+                    conds = [(o["gate"].name, o["cc"], o["ccv"]) for o in shown if "M" not in o and o["cc"] is not None]
+                    return True, (f"{name}, initial classical bits {bits}, record {b[0]}: the final state is not the branch "
+                                  f"of {what} (conditioned gates shown by the transformed circuit: {conds[:6]})")
+            if ncb and [list(map(int, x)) for x in res.get_cbits()] != [b[3] for b in live]:
+                return True, f"{name}, cbits={bits}: classical bits of the records differ from {what}"
+    return False, f"{name}: {len(settings)} classical states x all records agree with the original and with the shown attributes"
+
+
+def rand_transformed(rng):
+    """conditioned gates only (+ measurements put in front afterwards); for reverse / add_circuit / assigned also
+    measurements inside"""
+    name = rng.choice(TRANSFORMS + ["assigned", "assigned", "assigned"])
+    n = rng.randint(2, 3) if name != "assigned" else rng.randint(1, 3)
+    ncb = rng.randint(1, 2)
+    inside = name in ("reverse", "add_circuit", "assigned")
+    ops, m = [], 0
+    for _ in range(rng.randint(1, 5)):
+        if inside and rng.random() < 0.25 and m < 2:
+            ops.append({"M": rng.randrange(n), "store": rng.randrange(ncb)})
+            m += 1
+            continue
+        kind = rng.random()
+        if name == "adjacent":
+            kind = max(kind, 0.5)            # adjacent_gates is defined for two-qubit gates only
+        one_q = ["X", "Y", "Z", "SNOT", "RX", "RY", "RZ"] + ([] if name.startswith("resolve") else ["S", "T"])
+        if kind < 0.5 or n == 1:
+            nm = rng.choice(one_q)
+            g = {"name": nm, "targets": [rng.randrange(n)], "controls": None,
+                 "arg": (round(rng.uniform(-3, 3), 3) if nm in ("RX", "RY", "RZ") else None)}
+        elif kind < 0.9 or n == 2 or name == "adjacent":
+            c, t = rng.sample(range(n), 2)
+            nm = rng.choice(["CNOT", "CSIGN", "SWAP"])
+            g = {"name": nm, "targets": [c, t] if nm == "SWAP" else [t], "controls": None if nm == "SWAP" else [c], "arg": None}
+        else:
+            a, b, t = rng.sample(range(n), 3)
+            g = {"name": "TOFFOLI", "targets": [t], "controls": [a, b], "arg": None}
+        g["cc"], g["ccv"] = None, None
+        if rng.random() < 0.7 and not (name == "add_circuit" and "C02-4" in pending()):
+            cc = rng.sample(range(ncb), rng.randint(1, ncb))
+            g["cc"], g["ccv"] = cc, rng.randrange(2 ** len(cc))
+        ops.append(g)
+    w = {"kind": "transformed", "transform": name, "n": n, "ncb": ncb, "ops": ops, "seed": rng.randrange(1000)}
+    if not inside and rng.random() < 0.7:
+        w["pre"] = [{"M": rng.randrange(n), "store": rng.randrange(ncb)} for _ in range(rng.randint(1, 2))]
+    if name == "assigned" or rng.random() < 0.3:
+        w["late"] = sorted(rng.sample(["cc", "targets", "arg"], rng.randint(1, 3)) + (["cc"] if name == "assigned" else []))
+        w["late"] = sorted(set(w["late"]))
+        w["reassign"] = rng.random() < 0.3
+    if name == "add_circuit":
+        w["start"] = rng.randint(0, 1)
+        w["pad"] = rng.randint(0, 1)
+    if name == "qasm_if":
+        w = rand_qasm_if(rng)
+    return w
+
+
+def rand_qasm_if(rng):
+    n = rng.randint(1, 2)
+    k = rng.randint(1, 2)
+    lines = ["OPENQASM 2.0;", 'include "qelib1.inc";', f"qreg q[{n}];", f"creg c[{k}];"]
+    for _ in range(rng.randint(1, 4)):
+        r = rng.random()
+        g = rng.choice(["x", "h", "z", "y"]) + f" q[{rng.randrange(n)}];"
+        if r < 0.3:
+            lines.append(f"measure q[{rng.randrange(n)}] -> c[{rng.randrange(k)}];")
+        elif r < 0.8:
+            lines.append(f"if(c=={rng.randrange(2 ** k)}) " + g)
+        else:
+            lines.append(g)
+    return {"kind": "transformed", "transform": "qasm_if", "n": n, "ncb": k, "ops": [], "qasm": "\n".join(lines) + "\n",
+            "seed": rng.randrange(1000)}
+
+
+_PENDING = None
+
+
+def pending():
+    """repair proposed by this check and not (yet) in the tree under test: fixes/C02-4 (add_circuit drops the classical
+    condition of the gates of the added block) — recognised by the exact unrepaired call; until it is in the tree the
+    random add_circuit stream uses unconditioned gates only (the fixed witness is replayed from known_findings.json)"""
+    global _PENDING
+    if _PENDING is None:
+        import ast
+        _PENDING = set()
+        try:
+            tree = ast.parse(open(paths.REPO + "/src/qutip_qip/circuit/circuit.py").read())
+            for node in ast.walk(tree):
+                if isinstance(node, ast.FunctionDef) and node.name == "add_circuit":
+                    calls = [c for c in ast.walk(node) if isinstance(c, ast.Call) and isinstance(c.func, ast.Attribute)
+                             and c.func.attr == "add_gate"]
+                    if calls and not any(k.arg == "classical_controls" for c in calls for k in c.keywords):
+                        _PENDING.add("C02-4")
+        except Exception:
+            pass
+    return _PENDING
+
+
+W_ADDCIRC = {"kind": "transformed", "transform": "add_circuit", "n": 1, "ncb": 1, "seed": 2, "start": 0, "pad": 0,
+             "ops": [{"name": "X", "targets": [0], "controls": None, "arg": None, "cc": [0], "ccv": 1}]}
+W_RESOLVED = {"kind": "transformed", "transform": "resolve_cnot_rot", "n": 2, "ncb": 2, "seed": 3,
+              "ops": [{"name": "SNOT", "targets": [0], "controls": None, "arg": None, "cc": None, "ccv": None},
+                      {"name": "SNOT", "targets": [1], "controls": None, "arg": None, "cc": [0, 1], "ccv": 1}],
+              "pre": [{"M": 0, "store": 1}]}
+W_ASSIGNED = {"kind": "transformed", "transform": "assigned", "n": 1, "ncb": 1, "seed": 5, "late": ["cc"],
+              "ops": [{"name": "X", "targets": [0], "controls": None, "arg": None, "cc": [0], "ccv": 1}]}
+
+
+# ------------------------------------------------------------------------------------------
 # witness generators for the oracle
 
 ORACLE_1Q = ["X", "Y", "Z", "SNOT", "S", "T", "RX", "RY", "RZ"]
@@ -310,6 +622,7 @@ class C02(PropertyCheck):
         "QipVerif.C02.postselect_pruned_prob_zero",
         "QipVerif.C02.unconstrained_run_mem_branches",
         "QipVerif.C02.stat_eq_branches",
+        "QipVerif.C02.stat_eq_branches_current",
         "QipVerif.C02.cbits_reported",
         "QipVerif.C02.dm_eq_mixture_partial",
         "QipVerif.C02.dm_mixture_or_refuse",
@@ -323,7 +636,9 @@ class C02(PropertyCheck):
     ]
     technique = ("Lean 4 proof over an executable model of the simulator's control state machine (abstract quantum "
                  "backend, classical bits in an explicit heap) + model/implementation correspondence on an exact "
-                 "integer-amplitude stream + independent dense branch simulation as oracle")
+                 "integer-amplitude stream (conditions given at construction, assigned on the gate object afterwards, "
+                 "re-assigned between calls) + independent dense branch simulation as oracle, also of circuits that come "
+                 "out of the library's transformations, under every classical state")
     level_text = ("Lean 4 theorems over an executable model of CircuitSimulator's control state machine (abstract quantum "
                   "backend; classical bits in an explicit heap so that aliasing is representable), for every circuit, record, "
                   "initial bits and state: the condition test is the integer comparison with the first listed bit most "
@@ -353,6 +668,10 @@ class C02(PropertyCheck):
         "Model/Sim.lean as a description of CircuitSimulator.initialize/step/run/run_statistics/_apply_measurement and "
         "CircuitResult (validated by this correspondence, not proved); qutip's measurement_statistics as "
         "'projector, Born probability, normalised collapsed state'; atol**2 pruning modelled as 'probability = 0'",
+        "Model/SimEdit.lean: the contract that step() reads the gate objects' fields at execution time (validated by the "
+        "streams with conditions assigned / re-assigned on the gate objects, not proved); that the library's "
+        "transformations keep the branch semantics is checked by the oracle `transformed` only (gate matrices of the "
+        "transformed circuit from Gate.get_compact_qobj)",
         "py/props/_simlib.py, py/props/c02.py (harness: in-process logging wrappers around CircuitSimulator methods, "
         "scripted np.random.choice, canonicalisation of exceptions to {index,type,value,attr})",
     ]
@@ -376,8 +695,9 @@ class C02(PropertyCheck):
         outs = ctx.driver("drv_sim").run(lines)
         for case, impl, line, o in zip(cases, impls, lines, outs):
             nontrivial = any(("m" in op) or (op.get("cc") is not None) for op in case["ops"])
-            inp = {k: case[k] for k in ("n", "ncb", "mode", "ops", "lists", "inits", "calls")}
-            res.case(inp, nontrivial=nontrivial, tags=tags_fn(case, impl))
+            inp = {k: case[k] for k in ("n", "ncb", "mode", "ops", "lists", "inits", "calls", "alts", "assign") if k in case}
+            res.case(inp, nontrivial=nontrivial, tags=tags_fn(case, impl) + (["conditions=assigned"] if case.get("assign") else [])
+                     + (["edits=condition"] if case.get("alts") else []))
             try:
                 model = S.parse_answer(o)
                 diff = S.compare(case, model, impl)
@@ -410,6 +730,9 @@ class C02(PropertyCheck):
               and (cb is None or all(b in (0, 1) for b in cb)))
         if not ok:
             return None
+        if case.get("assign"):
+            return {"kind": "transformed", "transform": "assigned", "late": ["cc"], "n": case["n"], "ncb": case["ncb"],
+                    "ops": ops, "init": init}
         return {"kind": "branches", "n": case["n"], "ncb": case["ncb"], "ops": ops, "init": init, "cbits": cb,
                 "check": "all"}
 
@@ -445,7 +768,8 @@ class C02(PropertyCheck):
         for it in range(ncirc):
             n = rng.randint(1, 3)
             ncb = rng.randint(0, 3)
-            ops = S.rand_circuit(rng, n, ncb, rng.randint(1, 8), maxm, big_ccv=0.04)
+            assign = it % 3 == 2       # conditions assigned on the gate objects after add_gate
+            ops = S.rand_circuit(rng, n, ncb, rng.randint(1, 8), maxm, big_ccv=(0.0 if assign else 0.04))
             m = sum(1 for o in ops if "m" in o)
             mode = "sv" if rng.random() < 0.85 else "dm"
             init = S.rand_init(rng, n, None if mode == "sv" else rng.choice(["basis", "real"]))
@@ -455,6 +779,8 @@ class C02(PropertyCheck):
                 calls = [("stat", 0, cb)] + [("run", 0, cb, r) for r in S.all_records(m)] + [("run", 0, cb, None)]
                 cases.append({"n": n, "ncb": ncb, "mode": mode, "ops": ops, "lists": [bits] if bits is not None else [],
                               "inits": [init], "calls": calls})
+                if assign:
+                    cases[-1]["assign"] = True
         self._run_cases(ctx, res, cases, lambda c, i: tag(c, i) + ["stream=all-bits-all-records",
                                                                  "cbits=" + ("caller" if c["lists"] else "default")],
                         self._to_witness)
@@ -496,7 +822,29 @@ class C02(PropertyCheck):
                     calls.append(("state",))
                 else:
                     calls.append(("step",))
-            cases.append({"n": n, "ncb": ncb, "mode": mode, "ops": ops, "lists": lists, "inits": inits, "calls": calls})
+            case = {"n": n, "ncb": ncb, "mode": mode, "ops": ops, "lists": lists, "inits": inits, "calls": calls}
+            gpos = [i for i, o in enumerate(ops) if "g" in o]
+            if ncb and gpos and len(calls) >= 2 and rng.random() < 0.5 and \
+                    all(o["cc"] is None or 0 <= o["ccv"] < 2 ** len(o["cc"]) for o in ops if "g" in o):
+                # between two calls the user RE-ASSIGNS the classical condition of a gate on the gate object
+                # (classical_controls / classical_control_value; sometimes its targets / controls too): the simulator
+                # reads the gate's current attributes at execution time (Model/SimEdit.lean)
+                i = rng.choice(gpos)
+                cc = rng.sample(range(ncb), rng.randint(1, ncb)) if rng.random() < 0.85 else None
+                new = dict(ops[i], cc=cc, ccv=(rng.randrange(2 ** len(cc)) if cc is not None else 0))
+                if rng.random() < 0.3:
+                    new["q"] = rng.sample(range(n), len(ops[i]["q"]))
+                if new != ops[i]:
+                    case["alts"] = [ops[:i] + [new] + ops[i + 1:]]
+                    pos = rng.randint(1, len(calls) - 1)
+                    calls.insert(pos, ("edit", 1, "assign"))
+                    if rng.random() < 0.3 and pos + 2 <= len(calls):
+                        calls.insert(rng.randint(pos + 2, len(calls)), ("edit", 0, rng.choice(["assign", "replace"])))
+                    if rng.random() < 0.5:
+                        case["assign"] = True
+                        if not all(o["cc"] is None or 0 <= o["ccv"] < 2 ** len(o["cc"]) for o in ops if "g" in o):
+                            del case["assign"]
+            cases.append(case)
         self._run_cases(ctx, res, cases, lambda c, i: tag(c, i) + ["stream=history"])
         ng = sum(1 for c in cases if c.get("_garbage"))
         res.notes.append(f"{ng} histories were compared only up to the call after which `_state` is an array of a wrong "
@@ -564,7 +912,8 @@ class C02(PropertyCheck):
         rng = ctx.rng
         skip = self._skip_classes()
         t0 = time.time()
-        fixed = [W_ALIAS, W_BIGCCV] + ([] if "dm-feedforward" in skip else [W_DMFF])
+        fixed = [W_ALIAS, W_BIGCCV, W_RESOLVED, W_ASSIGNED] + ([] if "dm-feedforward" in skip else [W_DMFF]) + \
+            ([] if "C02-4" in pending() else [W_ADDCIRC])
         for w in fixed:
             f, d = oracle(w)
             if f:
@@ -572,6 +921,14 @@ class C02(PropertyCheck):
         i = 0
         while time.time() - t0 < budget_s and (count is None or i < count):
             i += 1
+            if rng.random() < 0.4:
+                # conditions assigned on the gate objects / circuits that come out of the library's transformations,
+                # under every classical state and record
+                w = rand_transformed(rng)
+                f, d = oracle(w)
+                if f:
+                    yield w, d
+                continue
             w = rand_witness(rng, general=True)
             if reads_measured_bits(w) and "dm-feedforward" in skip:
                 # dm_eq_mixture_partial excludes circuits whose conditions read measured bits
